@@ -62,7 +62,7 @@ replay = family.replay_case(judge)
 # ------------------------------------------------------------------------------------------------ generated programs
 def make_strategy():
     from hypothesis import strategies as st
-    return st.tuples(gen_c.c_program(max_depth=3, max_funcs=2), st.integers(0, 2 ** 32 - 1), st.integers(0, 2 ** 32 - 1))
+    return st.tuples(gen_c.c_program(max_depth=3, max_funcs=2, pp_split=True), st.integers(0, 2 ** 32 - 1), st.integers(0, 2 ** 32 - 1))
 
 
 _EX = {}
